@@ -9,6 +9,7 @@ global size_of usize == 8;
 //@ include prelude/reconplan_math.rs
 //@ include prelude/recon_io.rs
 
+#[derive(Clone, Copy)]
 pub struct MerkleHash(pub [u64; 4]);
 
 //@ extract cas_types/src/lib.rs struct Range
@@ -26,6 +27,9 @@ pub struct MerkleHash(pub [u64; 4]);
 //@ extract mdb_shard/src/file_structs.rs struct MDBFileInfo
 //@ end
 
+spec fn req_start(byte_range: Option<FileRange>) -> int { match byte_range { Some(rg) => rg.start as int, None => 0 } }
+spec fn req_end(byte_range: Option<FileRange>, len: int) -> int { match byte_range { Some(rg) => min_int(rg.end as int, len), None => len } }
+
 // the local xorb store: `get_object_range` opens the xorb file `hash` and returns, per requested chunk range, the
 // unpacked bytes of those chunks (file I/O + CasObject decoding: outside reach, contract ASSUMED)
 #[verifier::external_body] struct LocalClient { _p: () }
@@ -39,6 +43,13 @@ impl LocalClient {
             && forall|i: int| 0 <= i < v@.len() ==> (#[trigger] v@[i])@ == self.xorb_range_bytes(*hash, chunk_ranges@[i].0, chunk_ranges@[i].1),
     { unimplemented!() }
 
+    // the file record the shard manager holds for `hash` (shard lookup: async I/O, outside reach)
+    uninterp spec fn file_record(&self, hash: MerkleHash) -> Seq<FileDataSequenceEntry>;
+    #[verifier::external_body]
+    fn vx_file_reconstruction_info(&self, hash: &MerkleHash) -> (r: Result<Option<(MDBFileInfo, Option<MerkleHash>)>>)
+        ensures r matches Ok(Some(p)) ==> p.0.segments@ == self.file_record(*hash),
+    { unimplemented!() }
+
     // segment i of a file record denotes these bytes
     spec fn seg_bytes(&self, segs: Seq<FileDataSequenceEntry>) -> Seq<Seq<u8>> {
         Seq::new(segs.len(), |i: int| self.xorb_range_bytes(segs[i].cas_hash, segs[i].chunk_index_start, segs[i].chunk_index_end))
@@ -49,33 +60,28 @@ impl LocalClient {
     }
 
 //@ extract cas_client/src/local_client.rs in `impl ReconstructionClient for LocalClient` region get_file
-//@ from-after `return Err(CasClientError::FileNotFound(*hash)); };`
-//@ to `Ok((end - start) as u64)`
-//@ sig `fn get_file_tail(&self, file_info: MDBFileInfo, byte_range: Option<FileRange>, output_provider: &OutputProvider) -> (r: Result<(u64, OutWriter)>)`
+//@ block `_progress_updater: Option<Arc<dyn ProgressUpdater>>, ) -> Result<u64> {`
+//@ sig `fn get_file_body(&self, hash: &MerkleHash, byte_range: Option<FileRange>, output_provider: &OutputProvider) -> (r: Result<(u64, OutWriter)>)`
 //@ epilogue `.vx_with(writer)`
+//@ subst `self.shard_manager.get_file_reconstruction_info(hash).map_err(|e| anyhow!("{e}"))?` => `self.vx_file_reconstruction_info(hash)?` :: R11 stub for the shard manager lookup (async I/O) with its error-conversion closure
 //@ rules R4n R7m
 //@ contract
     requires
         // domain: the range starts inside the file and is not reversed; otherwise `&file_vec[start..end]` panics
         // (start > end), before the `end - start` that would underflow
-        byte_range matches Some(rg) ==> rg.start <= rg.end && rg.start <= self.file_bytes(file_info.segments@).len(),
+        byte_range matches Some(rg) ==> rg.start <= rg.end && rg.start <= self.file_bytes(self.file_record(*hash)).len(),
     ensures
-        r matches Ok(p) ==> ({
-            let file = self.file_bytes(file_info.segments@);
-            let start: int = match byte_range { Some(rg) => rg.start as int, None => 0 };
-            let end: int = match byte_range { Some(rg) => min_int(rg.end as int, file.len() as int), None => file.len() as int };
-            // output == concat(segment bytes)[start .. min(end, len)], written from offset 0; returned length == bytes written
-            &&& /*@C01*/ p.1.offset() == 0
-            &&& /*@C01*/ 0 <= start <= end <= file.len()
-            &&& /*@C01*/ p.1.written() == file.subrange(start, end)
-            &&& /*@C01*/ p.0 == p.1.written().len()
-        }),
-//@ body-start
+        // output == concat(segment bytes)[start .. min(end, len)], written from offset 0; returned length == bytes written
+        /*@C01*/ r matches Ok(p) ==> p.1.offset() == 0,
+        /*@C01*/ r matches Ok(p) ==> 0 <= req_start(byte_range) <= req_end(byte_range, self.file_bytes(self.file_record(*hash)).len() as int) <= self.file_bytes(self.file_record(*hash)).len(),
+        /*@C01*/ r matches Ok(p) ==> p.1.written() == self.file_bytes(self.file_record(*hash)).subrange(req_start(byte_range), req_end(byte_range, self.file_bytes(self.file_record(*hash)).len() as int)),
+        /*@C01*/ r matches Ok(p) ==> p.0 == p.1.written().len(),
+//@ before `let mut writer`
     let ghost segs = file_info.segments@;
     let ghost sb = self.seg_bytes(segs);
 //@ loop 1
         invariant
-            segs == file_info.segments@, sb == self.seg_bytes(segs),
+            segs == file_info.segments@, sb == self.seg_bytes(segs), segs == self.file_record(*hash),
             0 <= vx_it1.index@ <= segs.len(),
             file_vec@ == cat(sb, vx_it1.index@),
 //@ after `file_vec.append(&mut entry_bytes);`
